@@ -8,14 +8,11 @@ PP = 'preprocess.c'
 CG = 'codegen.c'
 
 
-def run_rest(P, rep, tier):
+def rest(P, rep):
     pu = P.unit(PP)
-    r186_handlers(P, pu, rep)
-    r186_line_marker(P, pu, rep)
-    r186_origin(P, pu, rep)
-    r184(P, rep)
-    r185(P, rep)
-    r187(P, rep)
+    return (('R18.4', r184, (P, rep)), ('R18.5', r185, (P, rep)),
+            ('R18.6', r186_handlers, (P, pu, rep)), ('R18.6', r186_line_marker, (P, pu, rep)), ('R18.6', r186_origin, (P, pu, rep)),
+            ('R18.7', r187, (P, rep)))
 
 
 def _uncast(v):
@@ -283,7 +280,7 @@ def r186_origin(P, u, rep):
 # ------------------------------------------------------------------------------ R18.4
 def r184(P, rep):
     rep.rule('R18.4', 'Token.line_no, the field diagnostics and .loc print, is written only by the physical line count (add_line_numbers) or copied from another token; '
-             'error_tok/warn_tok pass the token\'s file name, contents, line_no and loc to verror_at, which prints that name and line', floor=5)
+             'error_tok/warn_tok pass the token\'s file name, contents, line_no and loc to verror_at, which prints that name and line', floor=4)
     nw = 0
     for un in P.unit_names:
         u = P.unit(un)
@@ -318,8 +315,8 @@ def r184(P, rep):
                 rep.ob('R18.4', '%s:%s:line_no%s' % (un, fname, what), False,
                        '%s() changes Token.line_no (`line_no %s %s`): the field that diagnostics and .loc print next to the physical file name no longer denotes the physical line (after `#line 1000` an error on physical line 4 is reported as line 1001 of a 4-line file)' % (
                            fname, op, rhs.src() if rhs is not None else ''), where=where)
-    if nw < 2:
-        rep.undecided('R18.4', 'tokenize.c:add_line_numbers:writers', 'fewer than 2 writers of Token.line_no found (%d)' % nw)
+    if nw < 1:
+        rep.undecided('R18.4', 'tokenize.c:add_line_numbers:writers', 'no writer of Token.line_no found')
     u = P.unit(T)
     for fn in ('error_tok', 'warn_tok'):
         W = '%s:%d' % (T, u.fn(fn).line)
@@ -452,7 +449,9 @@ def r185(P, rep):
             f = it.settle(f) if isinstance(f, View) else f
             okf = False
             why = repr(f)
-            if isinstance(f, Obj):
+            if isinstance(f, View) and f.tag == 'id' and any(f.cell.label == t + '.file' for t in tp):
+                okf = True            # the template's own file pointer, copied
+            elif isinstance(f, Obj):
                 if f.label and any(f.label == t + '.file' for t in tp):
                     okf = True
                 else:
